@@ -97,7 +97,7 @@ def draw_payload_edit(draw, mod, tname, depth):
     if tname == "Sampler":
         cls = type(mod)
         present = [i for i, s in enumerate(mod.samples) if s is not None]
-        kinds = ["s_field"] * 2 + ["s_map", "s_env", "s_point", "s_sample_new"]
+        kinds = ["s_field"] * 2 + ["s_map", "s_map_tail", "s_env", "s_point", "s_sample_new"]
         if present:
             kinds += ["s_sample_field"] * 3 + ["s_sample_del"]
         if mod.effect is not None and depth < 2:
@@ -112,6 +112,9 @@ def draw_payload_edit(draw, mod, tname, depth):
             return ["s_field", name, fields[name]]
         if k == "s_map":
             return ["s_map", draw(st.integers(0, 118)), draw(u8)]
+        if k == "s_map_tail":
+            # re-map (or un-map: 0) every note from a start note upwards
+            return ["s_map_tail", draw(st.one_of(st.sampled_from([0, 1, 48, 95, 96, 118]), st.integers(0, 118))), draw(st.sampled_from([0, 0, 1, 255]))]
         which = draw(st.sampled_from(["volume", "panning", "pitch", "fx0", "fx1", "fx2", "fx3"]))
         narrow = which in ("volume", "panning")
         lo, hi = (0, 0x8000) if which in ("volume", "fx0", "fx1", "fx2", "fx3") else (-0x4000, 0x4000)
@@ -251,6 +254,9 @@ def apply_module_edit(mod, e):
         elif s == "s_map":
             key = list(mod.note_samples.keys())[e[2]]
             mod.note_samples[key] = e[3]
+        elif s == "s_map_tail":
+            for key in list(mod.note_samples.keys())[e[2] :]:
+                mod.note_samples[key] = e[3]
         elif s == "s_env":
             setattr(envelope_of(mod, e[2]), e[3], e[4])
         elif s == "s_point":
@@ -389,6 +395,8 @@ def module_paths(mod, e, base):
         return pb + "/" + e[2], v, []
     if s == "s_map":
         return "%s/note_samples/%d" % (pb, e[2]), e[3], []
+    if s == "s_map_tail":
+        return "%s/note_samples/%d" % (pb, e[2]), e[3], ["%s/note_samples" % pb]
     envkey = lambda w: {"volume": "volume_envelope", "panning": "panning_envelope", "pitch": "pitch_envelope"}.get(w) or "effect_control_envelopes/%s" % w[2]  # noqa: E731
     if s == "s_env":
         v = int(e[4]) if isinstance(e[4], bool) else e[4]
